@@ -401,7 +401,9 @@ pub fn run_group(seed: u64, gi: u64, base: &InstSpec, tier: &FTier, st: &mut Sta
     } else {
         st.ref_sampled_groups += 1;
     }
-    let budget = Budget { max_calls: r.calls + 1000, max_polls: r.polls + 64 };
+    // polls: an iterator may hand out points it computed ahead of the consumer before the Err
+    // (each took at least one derivative call), so the reference calls are allowed on top
+    let budget = Budget { max_calls: r.calls + 1000, max_polls: r.polls + r.calls + 64 };
     let opts = ExecOpts { record: false, keep_tail: 0, rec_polls: false, check_isolation: false, rec_items: false };
     let mut sub: u64 = 0;
     let mut sample_taken = false;
